@@ -346,14 +346,8 @@ func rulePAIR3(w *World) []Ob {
 				if !success {
 					return
 				}
-				dom := false
-				for _, a := range adds {
-					if dominatesInstr(a, r) {
-						dom = true
-					}
-				}
-				if !dom && !mergeSide(r) {
-					bad = "success is reported at " + p.InstrPos(r) + " without a link or merge on that path"
+				if reachableAvoidingLinks(fn, r, adds) {
+					bad = "success is reported at " + p.InstrPos(r) + " on a path that neither links the node nor merges it into an existing sibling"
 				}
 			})
 			if bad != "" {
@@ -505,6 +499,23 @@ func rulePAIR4(w *World) []Ob {
 		n++
 		// body: the function itself, or the single closure it returns
 		body := e
+		if len(e.AnonFuncs) == 0 && len(e.Blocks) == 1 {
+			// alias that returns another entry point's iterator unchanged
+			var only *ssa.Call
+			nCalls := 0
+			allInstrs(e, func(in ssa.Instruction) {
+				if c, ok := in.(*ssa.Call); ok {
+					only = c
+					nCalls++
+				}
+			})
+			if nCalls == 1 && only.Common().StaticCallee() != nil && only.Common().StaticCallee().Object() != nil && only.Common().StaticCallee().Object().Exported() {
+				if _, isSig := only.Type().Underlying().(*types.Signature); isSig {
+					l.ok(p.FuncID(e), "validateTreeRoot first", p.InstrPos(only), "returns the iterator of "+relFunc(only.Common().StaticCallee())+" unchanged", false, "validate-first")
+					continue
+				}
+			}
+		}
 		if len(e.AnonFuncs) == 1 && returnsClosure(e) {
 			body = e.AnonFuncs[0]
 			// an iterator constructor does nothing but build the closure: everything (validation,
@@ -531,6 +542,23 @@ func rulePAIR4(w *World) []Ob {
 			}
 		}
 		vcall, _ := first.(*ssa.Call)
+		if vcall != nil && vcall.Common().StaticCallee() != nil {
+			// pure delegation: the only call hands the root, in the same position, to another exported entry point
+			callee := vcall.Common().StaticCallee()
+			nCalls := 0
+			allInstrs(body, func(in ssa.Instruction) {
+				if _, ok := in.(ssa.CallInstruction); ok {
+					nCalls++
+				}
+			})
+			if nCalls == 1 && callee.Object() != nil && callee.Object().Exported() && p.PkgPath(callee) == modulePath && callee != body {
+				idx := inputIndexParam(e, rootPrm)
+				if idx >= 0 && idx < len(vcall.Common().Args) && sameVar(vcall.Common().Args[idx], rootPrm) && idx < len(callee.Params) && isNodePtr(callee.Params[idx].Type()) {
+					l.ok(fid, construct, p.InstrPos(vcall), "delegates to "+relFunc(callee)+", which is checked by this rule itself", false, "validate-first")
+					continue
+				}
+			}
+		}
 		if vcall == nil || vcall.Common().StaticCallee() == nil || nc.nilRetImp[vcall.Common().StaticCallee()] == nil {
 			what := "nothing"
 			if first != nil {
@@ -1155,4 +1183,36 @@ func paramOnlyPulled(p *Prog, prm *ssa.Parameter, depth int) bool {
 		}
 	}
 	return true
+}
+
+
+// reachableAvoidingLinks: can the return be reached from the entry without executing an addChild call
+// and without passing the non-nil side of a findChildByText test?
+func reachableAvoidingLinks(fn *ssa.Function, r *ssa.Return, adds []*ssa.Call) bool {
+	stop := map[*ssa.BasicBlock]bool{}
+	for _, a := range adds {
+		stop[a.Block()] = true
+	}
+	// merge sides
+	allInstrs(fn, func(in ssa.Instruction) {
+		iff, ok := in.(*ssa.If)
+		if !ok {
+			return
+		}
+		tv, nonNil, ok := nilTest(iff.Cond, true)
+		if !ok {
+			return
+		}
+		if c, ok := stripConv(tv).(*ssa.Call); ok && c.Common().StaticCallee() != nil && c.Common().StaticCallee().Name() == "findChildByText" {
+			if nonNil {
+				stop[iff.Block().Succs[0]] = true
+			} else {
+				stop[iff.Block().Succs[1]] = true
+			}
+		}
+	})
+	if stop[r.Block()] {
+		return false
+	}
+	return blockReach(fn.Blocks[0], stop)[r.Block()]
 }
